@@ -112,8 +112,6 @@ class Run:
         self.prefix = list(prefix)
         self.trace = []
         self.pending = []
-        self.solver = z3.Solver()
-        self.solver.set('timeout', timeout_ms)
         self.timeout_ms = timeout_ms
         self.feas_timeout_ms = feas_timeout_ms
         self.pc = []
@@ -144,26 +142,23 @@ class Run:
                 raise PathEnd('assume False')
             return
         self.pc.append(cond)
-        self.solver.add(cond)
+
+    def _solver(self, extra, timeout_ms):
+        """A fresh solver over the path condition (no push/pop: the incremental mode of z3 was seen to
+        answer `sat` on unsatisfiable queries and to crash with recursive functions and lambdas)."""
+        s = z3.Solver()
+        s.set('timeout', timeout_ms)
+        s.add(self.pc)
+        s.add(extra)
+        return s
 
     def feasible(self, cond):
         t0 = time.time()
-        self.solver.push()
-        self.solver.set('timeout', self.feas_timeout_ms)
-        self.solver.add(cond)
+        s = self._solver(cond, self.feas_timeout_ms)
         if DEBUG_DUMP:
             with open(DEBUG_DUMP, 'w') as fh:
-                fh.write(self.solver.to_smt2())
-        r = self.solver.check()
-        self.solver.pop()
-        self.solver.set('timeout', self.timeout_ms)
-        if r == z3.unsat and FRESH_RECHECK:
-            fs = z3.Solver()
-            fs.set('timeout', self.feas_timeout_ms)
-            fs.add(self.pc)
-            fs.add(cond)
-            if fs.check() == z3.sat:
-                raise OutOfReach('solver disagreement in a feasibility check (incremental unsat, fresh sat)')
+                fh.write(s.to_smt2())
+        r = s.check()
         self.solver_secs += time.time() - t0
         if DEBUG_DUMP and time.time() - t0 > 1.0:
             sys.stderr.write('SLOW feasibility %.1fs %s: %s\n' % (time.time() - t0, r, str(cond)[:300]))
@@ -207,29 +202,16 @@ class Run:
         if isinstance(claim, bool):
             claim = z3.BoolVal(claim)
         t0 = time.time()
-        self.solver.push()
-        self.solver.add(z3.Not(claim))
+        sol = self._solver(z3.Not(claim), self.timeout_ms)
         if DEBUG_DUMP:
             with open(DEBUG_DUMP + '.prove', 'w') as fh:
-                fh.write(self.solver.to_smt2())
-        r = self.solver.check()
+                fh.write(sol.to_smt2())
+        r = sol.check()
         model = None
         detail = ''
-        fresh = None
-        if r != z3.unsat or FRESH_RECHECK:
-            # the incremental solver (push/pop + recursive functions) was seen to answer `sat` on an
-            # unsatisfiable query; every answer other than unsat is re-decided by a fresh solver
-            fresh = z3.Solver()
-            fresh.set('timeout', self.timeout_ms)
-            fresh.add(self.pc)
-            fresh.add(z3.Not(claim))
-            r2 = fresh.check()
-            if r == z3.unsat and r2 == z3.sat:
-                raise OutOfReach('solver disagreement on %s (incremental unsat, fresh sat)' % label)
-            r = r2 if r != z3.unsat else r
         if r == z3.sat:
             try:
-                model = (fresh if fresh is not None else self.solver).model()
+                model = sol.model()
             except z3.Z3Exception:
                 model = None
             status = 'failed'
@@ -237,11 +219,10 @@ class Run:
             status = 'proved'
         else:
             status = 'unknown'
-            detail = (fresh if fresh is not None else self.solver).reason_unknown()
+            detail = sol.reason_unknown()
             if DEBUG_DUMP:
                 with open(DEBUG_DUMP + '.unknown', 'w') as fh:
-                    fh.write(self.solver.to_smt2())
-        self.solver.pop()
+                    fh.write(sol.to_smt2())
         secs = time.time() - t0
         self.solver_secs += secs
         ob = Obligation(label, kind, status, model=self.extract_model(model) if model is not None else None,
@@ -594,6 +575,10 @@ class Run:
             if name in mi.functions:
                 fn = mi.functions[name]
                 q = mi.name + '.' + name
+                if any(getattr(d, 'id', None) == 'native' for d in fn.decorator_list):
+                    from . import builtins_ as B
+                    if name in B.BUILTINS:
+                        return B.BUILTINS[name]      # native helper with a symbolic counterpart
                 if name in self.w.specs and mi.name.startswith('spec'):
                     return self.w.specs[name]
                 if name in self.w.lemmas and mi.name.startswith('spec'):
@@ -950,6 +935,9 @@ class Run:
             return TagV(v, adt)
         if attr == '_id':
             return IdV(v)
+        if attr in adt.derived:
+            e, k = adt.derived[attr](v.e)
+            return self.wrap(e, k)
         owners = adt.fields_named(attr)
         if owners:
             kinds = set(repr(dict(c.fields)[attr]) for c, _ in owners)
@@ -1056,6 +1044,40 @@ class Run:
         if getattr(self, 'lemma_mode', None) is None:
             self.used_lemmas = getattr(self, 'used_lemmas', set()) | {name}
         return None
+
+    def use_lemma_forall(self, name):
+        """Assume a (separately proved) side-car lemma for ALL values of its parameters:
+        forall params. requires => ensures.  Instantiation is left to the solver's E-matching."""
+        mi, fn = self.w.lemmas[name]
+        env = Env(mi, None, None)
+        consts = []
+        for a in fn.args.args:
+            v = self.fresh(kind_of_annotation(a.annotation), 'lq_' + a.arg)
+            env.vars[a.arg] = v
+            consts.append(v.arr if isinstance(v, MapV) else v.e)
+        n0 = len(self.pc)
+        n_ob = len(self.obligations)
+        self.lemma_use = getattr(self, 'lemma_use', 0) + 1
+        self.spec_mode += 1
+        self.total_access += 1
+        saved_no_prove = self.no_prove
+        reqs, enss = [], []
+        try:
+            for st in fn.body:
+                if isinstance(st, ast.Expr) and isinstance(st.value, ast.Call) and \
+                        isinstance(st.value.func, ast.Name) and st.value.func.id in ('requires', 'ensures'):
+                    cl = self.tobool(self.eval(st.value.args[0], env))
+                    (reqs if st.value.func.id == 'requires' else enss).append(cl)
+        finally:
+            self.lemma_use -= 1
+            self.spec_mode -= 1
+            self.total_access -= 1
+            self.no_prove = saved_no_prove
+        del self.pc[n0:]
+        body = z3.Implies(z3.And(*reqs), z3.And(*enss)) if reqs else z3.And(*enss)
+        self.assume(z3.ForAll(consts, body))
+        if getattr(self, 'lemma_mode', None) is None:
+            self.used_lemmas = getattr(self, 'used_lemmas', set()) | {name}
 
     def construct(self, ci, args, kwargs):
         q = ci.qualname
@@ -1242,14 +1264,20 @@ class Run:
         values['result'] = result
         gvals = dict(values)
         gconsts = []
+        cur = getattr(self, 'ghost_values', {})
         for g, k in c.ghost.items():
+            if g in cur and self.kind_of(cur[g]) == k:
+                # the caller is verified for ghost values of the same name and kind: the callee's
+                # (universally quantified) post-condition is used at exactly those values
+                gvals[g] = cur[g]
+                continue
             gv = self.fresh(k, 'g_' + g)
             gvals[g] = gv
             gconsts.append(gv.e)
         for lbl, fn in c.ensures:
             uses_ghost = any(p.arg in c.ghost for p in fn.args.args)
             cl = self.tobool(self.eval_clause(c, fn, gvals if uses_ghost else values))
-            if uses_ghost:
+            if uses_ghost and gconsts:
                 cl = z3.ForAll(gconsts, cl)
             self.assume(cl)
         return result
